@@ -24,6 +24,8 @@ RULE = ("Seeded random adapter sets x 12 reads each. Non-trivial = the index rep
 ASSUMPTIONS = [
     "adapters over ACGT only, k <= 3 (what the index accepts)",
     "duplicate adapter sequences are generated rarely and then only clause (1) applies",
+    "'equally close to its two nearest adapters' is read among the adapters that occur within their own tolerance: an adapter "
+    "that is nearer but outside its tolerance (possible with per-adapter ;e=) does not break a tie between two admissible ones",
     "a clean ASan/UBSan run means no report on the calls made, not memory safety",
 ]
 
